@@ -142,6 +142,13 @@ def run_known_replay(k):
             p = subprocess.run([exe, '--input', inp], capture_output=True, timeout=120)
             os.unlink(exe); os.unlink(inp)
             return p.returncode != 0, 'driver exit %d' % p.returncode
+        if kind == 'api':
+            import statics
+            d, log = statics.scratch_build('libsqfvm')
+            if d is None: return False, 'libsqfvm could not be built: ' + log[-200:]
+            p = subprocess.run([sys.executable, os.path.join(ROOT, 'replay', 'api', 'isolation.py'), os.path.join(d, 'libsqfvm.so'), rp['probe'], rp['other']],
+                               capture_output=True, timeout=120)
+            return p.returncode == 1, p.stdout.decode('utf-8', 'replace')[-300:].replace('\n', ' | ')
         if kind == 'sqfvm':
             import vmreplay
             return vmreplay.run(rp)
